@@ -19,6 +19,21 @@ U == CASE UName = "small1" -> AtomsSmall \cup Containers(AtomsSmall, Hashable(At
        [] UName = "deep2"  -> LET A0 == {VAtom("int"), VStr("a"), VAtom("NoneType")}
                                   L1 == A0 \cup Containers(A0, A0, {VStr("a"), VStr("b"), VAtom("int")}, 2)
                               IN  L1 \cup ContainersOf({"list", "dict", "tuple", "set", "ddict"}, L1, A0, {VStr("a"), VStr("b")}, 2)
+       \* records: containers holding TWO dicts with overlapping key sets and different value types (what merges into
+       \* TypedDicts with required AND optional keys), alone and next to non-dict values
+       [] UName = "recs"   -> LET I == VAtom("int")  S == VStr("s")  Nn == VAtom("NoneType")
+                                  D(ps) == VDict(ps)
+                                  Pool == {D(<<VPair(VStr("a"), I)>>), D(<<VPair(VStr("a"), I), VPair(VStr("b"), S)>>),
+                                           D(<<VPair(VStr("b"), S)>>), D(<<VPair(VStr("a"), S)>>), D(<<>>),
+                                           D(<<VPair(VStr("a"), I), VPair(VStr("b"), Nn)>>), D(<<VPair(I, I)>>),
+                                           D(<<VPair(VStr("c"), VList(<<I>>))>>)}
+                                  Two == {<<x, y>> : x \in Pool, y \in Pool}
+                              IN  Pool \cup {I, Nn, S}
+                                  \cup {VList(p) : p \in Two} \cup {VTuple(<<VList(p)>>) : p \in Two}
+                                  \cup {VDict(<<VPair(VStr("k"), VList(p))>>) : p \in Two}
+                                  \cup {VList(<<VList(p), I>>) : p \in Two}
+                                  \cup {VDict(<<VPair(VStr("x"), p[1]), VPair(VStr("y"), p[2])>>) : p \in Two}
+                                  \cup {VSet(<<VTuple(<<I, S>>)>>), VList(<<VList(<<>>), VList(<<I>>)>>)}
        \* C06: dicts with 0..12 keys (string, non-string, mixed), nested in every container kind
        [] UName = "wide"   -> LET KS == {VStr("k01"), VStr("k02"), VStr("k03"), VStr("k04"), VStr("k05"), VStr("k06"),
                                          VStr("k07"), VStr("k08"), VStr("k09"), VStr("k10"), VStr("k11"), VStr("k12")}
